@@ -7,7 +7,7 @@
     error, or some other error.  The model must accept the schedule ([prun] = Some) and return the same
     to every call; [sent] lists the calls whose commands reached the server. *)
 From Coq Require Import List NArith ZArith Bool.
-Require Import RV.Model.Base RV.Model.PipeQueue RV.Model.Pipe RV.Model.PipeLts RV.Model.PipeWait.
+Require Import RV.Model.Base RV.Model.PipeQueue RV.Model.Pipe RV.Model.PipeLts RV.Model.PipeWait RV.Model.PipeWatch.
 Import ListNotations.
 Open Scope N_scope.
 
@@ -50,6 +50,8 @@ Definition KI (id argc flags : N) : cmd :=
 Inductive case :=
 | CSched (flow : bool) (cap : N) (replies : list (N * msg)) (sched : list label)
          (expect : list (N * list rclass)) (sent : list N)
+| CWatch (flow : bool) (cap : N) (replies : list (N * msg)) (sched : list wlabel)
+         (expect : list (N * list rclass)) (blk : N)
 | CSelect (cancellable done ready : bool) (got_ctx : bool)
 | CRetry (delay until : Z) (has_deadline cancellable done fired : bool) (retried waited got_ctx : bool).
 
@@ -62,6 +64,16 @@ Definition check_case (c : case) : bool :=
     | Some s =>
       forallb (fun '(t, cs) => match k_ret (p_calls s t) with Some rs => all_match rs cs | None => false end) expect &&
       subset (p_sent s) sent && subset sent (p_sent s)
+    end
+  | CWatch flow cap replies sched expect blk =>
+    (* a schedule of the pipe LTS extended with the keep-alive watchdog; [blk]: the value of blcksig the schedule
+       must end with *)
+    let g := mkCfg (if flow then Flow else Ring) (N.to_nat cap) false 7 (table_srv replies) in
+    match wrun g sched (w_init g) with
+    | None => false
+    | Some ws =>
+      forallb (fun '(t, cs) => match k_ret (p_calls (w_p ws) t) with Some rs => all_match rs cs | None => false end) expect &&
+      Nat.eqb (w_blk ws) (N.to_nat blk)
     end
   | CSelect cancellable done ready got_ctx =>
     (* the implementation's outcome must be one the select allows *)
